@@ -136,6 +136,8 @@ def main(argv=None):
         os.environ['PYTHONHASHSEED'] = '0'
         os.execv(sys.executable, [sys.executable, '-m', 'vt.runner'] + (argv or sys.argv[1:]))
     _prepare_paths()
+    import logging
+    logging.disable(logging.CRITICAL)   # the code under test logs warnings for every odd input
     try:
         return _main(args, pid, seed)
     except SystemExit:
@@ -232,7 +234,7 @@ def _main(args, pid, seed):
         violations.append((b, os.path.relpath(path, VERIF)))
     # 4. evidence
     required = getattr(mod, 'REQUIRED_CLASSES', {})
-    missing = [c for c in required if total.classes.get(c, 0) == 0]
+    missing = [] if args.part else [c for c in required if total.classes.get(c, 0) == 0]
     nontrivial = len(total.nt_digests) + total.bulk_nontrivial
     coverage = {
         'evaluations': total.evaluations,
